@@ -822,7 +822,16 @@ theorem applyFunction_qstep {P : Qp} {fuel : Nat} (ih : QSpec fuel) : ∀ fn arg
     have hk : (renFn P.σ f).key = f.key := rfl
     have hb : (renFn P.σ f).body = f.body := rfl
     rw [hk, hb]
-    refine SimQ.bind (qsim_cacheGet hR f.key args _) ?_
+    refine qsim_curEnv_bind hR ?_
+    refine qsim_getFrame_bind hR t.cur ?_
+    intro cfs0 cft0 _ _ hcfr0
+    try dsimp only
+    rw [sameFunction_ren P.σ hcfr0.cacheKey hcfr0.function f, hcfr0.localFunc]
+    have hcg : SimQ P (if (cft0.localFunc && sameFunction cft0 f) = true then pure none else cacheGet f.key (renL P.σ args))
+        (if (cft0.localFunc && sameFunction cft0 f) = true then pure none else cacheGet f.key args) s t
+        (fun a b => a = none ∧ b = none) :=
+      SimQ.ite (fun _ => SimQ.pure hR ⟨rfl, rfl⟩) (fun _ => qsim_cacheGet hR f.key args _)
+    refine SimQ.bind hcg ?_
     rintro _ _ s1 t1 hR1 ⟨rfl, rfl⟩
     dsimp only
     refine SimQ.bind (qsim_extendFunctionEnv hR1 f args hca) ?_
@@ -860,7 +869,7 @@ theorem applyFunction_qstep {P : Qp} {fuel : Nat} (ih : QSpec fuel) : ∀ fn arg
           refine (finishCall_loud _ _ _ _ _ _ _ _ ?_).at _
           rw [missOf_of_frame hte1] at hne hmono
           simp only [bne_iff_ne, ne_eq]
-          omega
+          split <;> omega
       case hf =>
         rintro _ res s4 t4 hR4 ⟨rfl, hcres⟩
         cases hte1 : t4.frames[nenv]? with
